@@ -156,6 +156,16 @@ def enhancement(rnd, level, rows, drcs):
                 trips.append((col, 0x07, rnd.randrange(0x20)))                        # additional flash functions
             else:
                 trips.append((col, 0x0E, rnd.randrange(0x80)))                        # font style (Level 3.5)
+    if level >= 25:
+        # a double width / double size enhancement character in column 39 or 38 of a later row: the formatter clips it at column 40
+        # and the 41st column copies the 40th (a wide cell in the page's last column).  Own generator: the stream of rnd is not touched.
+        import random
+        r2 = random.Random(sum((a * 31 + m) * 131 + dd for a, m, dd in trips) + 7 * len(trips))
+        last = max([a - 40 for a, m, dd in trips if a > 40 and m in (0x01, 0x04)] + [0])
+        if last < 23 and r2.random() < 0.6:
+            r = r2.randrange(last + 1, 24)
+            col = r2.choice([39, 39, 38])
+            trips += [(40 + r, 0x04, 0), (col, 0x0C, r2.choice([0x40, 0x41, 0x40 | 0x04])), (col, 0x09, r2.randrange(0x41, 0x5B))]
     return trips
 
 
@@ -205,3 +215,89 @@ def caption_text(rnd, n):
         c2 = rnd.choice([rnd.randrange(0x20, 0x80), 0x20])
         out.append((c1, c2))
     return out
+
+
+# ---------------------------------------------------------------- edge pages (spec/MC_CanvasCells.tla, spec/Gen_CanvasCells.tla)
+# A model page [rows, cols, fr, fc] stands for a real page: model row r < fr = real row r, r > fr = the real row at the same
+# distance from the bottom, r = fr (the filler) = all rows between; columns alike.  Indices here: model 1-based, real 0-based.
+def edge_real(x, n, m, f):
+    """model index x (not the filler) of m with filler f -> real index of n"""
+    assert x != f
+    return x - 1 if x < f else n - 1 - (m - x)
+
+
+def edge_filler(n, m, f):
+    """the real indices the filler stands for: lo..hi"""
+    return f - 1, n - 1 - (m - f)
+
+
+def edge_span(rnd, a, w, n, m, f):
+    """model span (first a, length w) -> a real span (first, length) whose edges lie in what the model's edges stand for.
+    An edge in the filler may lie anywhere in the run: mostly next to the block on the far side of the span (small regions)."""
+    b = a + w - 1
+    lo, hi = edge_filler(n, m, f)
+    near = lambda: rnd.choice([0, 0, 0, 1, 2, 3, rnd.randrange(hi - lo + 1)])
+    if a == f and b == f:
+        s = lo + rnd.randrange(hi - lo + 1)
+        e = min(hi, s + rnd.choice([0, 0, 1, 2, rnd.randrange(hi - lo + 1)]))
+    else:
+        s = max(lo, hi - near()) if a == f else edge_real(a, n, m, f)
+        e = min(hi, lo + near()) if b == f else edge_real(b, n, m, f)
+    assert 0 <= s <= e < n
+    return s, e - s + 1
+
+
+def edge_text_rows(rnd):
+    """Level 1 rows 1..24 of plain text (no attributes); column 0 is never a space (the 41st column then copies the 40th)"""
+    rows = []
+    for r in range(1, 25):
+        codes = _text(rnd, 40)
+        codes[0] = 0x41 + (r % 26)
+        rows.append((r, codes))
+    return rows
+
+
+def edge_teletext(rnd, d, geo, att, rows_shown):
+    """Transmission for the edge page descriptor d on a page fetched with rows_shown rows.  Returns (setup commands, fetch command).
+    via copy / blank: the character is made by X/26 enhancement data (row address, display attributes, G0 character) and the real
+    formatter; via edit: the fetched page is edited cell by cell (command E)."""
+    m_rows, m_cols, fr, fc = geo["rows"], geo["cols"], geo["fr"], geo["fc"]
+    pk = [ttx.header(0x100, 0, ttx.C4_ERASE)]
+    rows = edge_text_rows(rnd)
+    trips = []
+    if d["via"] in ("copy", "blank"):
+        rr = edge_real(d["r"], rows_shown, m_rows, fr)
+        cc = edge_real(d["c"], 41, m_cols, fc)
+        assert cc <= 39
+        trips.append((0x3F, 0x07, 0) if rr == 0 else (40 + (rr % 24), 0x04, 0))     # address row 0 / set active position (row 24 = address 40)
+        trips.append((cc, 0x0C, {1: 0x40, 2: 0x01, 3: 0x41}[d["k"]] | (0x04 if att & 1 else 0)))
+        trips.append((cc, 0x09, 0x41 + rnd.randrange(26)))
+        if d["via"] == "blank":
+            # a mosaic character in column 39 of a filler row that does not continue the one in column 38: the 41st column is blank
+            fl = edge_filler(rows_shown, m_rows, fr)[0]
+            assert fl >= 1
+            codes = rows[fl - 1][1]
+            codes[37] = 0x17; codes[38] = 0x20; codes[39] = 0x7F
+    for r, codes in rows:
+        pk.append(ttx.row(1, r, codes))
+    if trips:
+        pk += x26_packets(1, trips)
+    pk.append(ttx.filler_header(1))
+    setup = ["G 0"] + ["P " + ttx.hexpk(p) for p in pk]
+    if d["via"] in ("copy", "blank"):
+        return setup, "F 100 3f7f 25 %d 0" % rows_shown
+    setup.append("f 100 3f7f 25 %d 0" % rows_shown)
+    return setup, None
+
+
+def edge_edits(sz, geo, att, n_rows, n_cols):
+    """command E: the sizes of the model page at the real cells its cells stand for"""
+    m_rows, m_cols, fr, fc = geo["rows"], geo["cols"], geo["fr"], geo["fc"]
+    out = []
+    for r in range(1, m_rows + 1):
+        for c in range(1, m_cols + 1):
+            z = sz[(r - 1) * m_cols + (c - 1)]
+            if z:
+                assert r != fr and c != fc
+                out.append("%d %d %d %d" % (edge_real(r, n_rows, m_rows, fr), edge_real(c, n_cols, m_cols, fc), z, att))
+    return "E " + " ".join(out) if out else "E"
